@@ -86,7 +86,7 @@ def gen(rng, tier):
     pk = config['bit_config']
     cols_all = columns()
     cases = []
-    for i in range(150 if tier == 'quick' else 5000):
+    for i in range(150 if tier == 'quick' else 3000):
         use_pds = rng.random() < 0.5
         cols = [c for c in cols_all if (c.startswith('PDS') if use_pds else True) or not (c[2:] in pk and pk.get(c[2:], {}).get('field_processor') == 'PDS')]
         if use_pds:
@@ -113,10 +113,10 @@ def gen(rng, tier):
     # csv.reader - as a StringIO (lines end at LF only) and as a text file would deliver them (CR / CRLF read as LF) -,
     # arbitrary rows through csv.writer(lineterminator="\n")
     alpha = 'ab ' + ',' * 3 + '"' * 4 + '\n\n\r\t' + "'" + 'x\u00e9\u20ac;'
-    for i in range(400 if tier == 'quick' else 20000):
+    for i in range(400 if tier == 'quick' else 8000):
         n = rng.choice([0, 1, 2, 3, 5, 8, 13, 30])
         cases.append({'kind': 'csvparse', 'nl': rng.random() < 0.4, 'text': ''.join(rng.choice(alpha) for _ in range(n))})
-    for i in range(200 if tier == 'quick' else 10000):
+    for i in range(200 if tier == 'quick' else 4000):
         rows = [[''.join(rng.choice(alpha) for _ in range(rng.choice([0, 0, 1, 2, 5]))) for _ in range(rng.choice([0, 1, 1, 2, 3, 6]))]
                 for _ in range(rng.choice([0, 1, 2, 4]))]
         cases.append({'kind': 'csvwrite', 'rows': rows})
